@@ -112,6 +112,14 @@ def match_kf(fl, unit, pid, kfs):
     return None
 
 
+def is_proxy(unit, fn, pid):
+    """PROXY_FUNCTIONS of a unit: a list of function names (for every property) or a dict name -> properties"""
+    pf = getattr(unit, "PROXY_FUNCTIONS", ())
+    if isinstance(pf, dict):
+        return pid in pf.get(fn, ())
+    return fn in pf
+
+
 _SHAPES = None
 
 
@@ -296,7 +304,7 @@ def main():
         kf_clause_ids = set()
         grown = grown_functions(u, g)
         for fl in confirmed:
-            if fl.fn in getattr(unit, "PROXY_FUNCTIONS", ()) and not match_kf(fl, u, pid, kfs) and fl.fn not in grown:
+            if is_proxy(unit, fl.fn, pid) and not match_kf(fl, u, pid, kfs) and fl.fn not in grown:
                 for c in fl.clauses:
                     failed_clause_ids.add(c[0])
         if grown:
@@ -312,7 +320,7 @@ def main():
                 known.append((kf, unit.NAME, fl))
                 for c in fl.clauses:
                     kf_clause_ids.add(c[0])
-            elif fl.fn in getattr(unit, "PROXY_FUNCTIONS", ()):
+            elif is_proxy(unit, fl.fn, pid):
                 # the contract of this function pins an exact floating-point expression where the property itself is stated up
                 # to tolerance: an equivalent reformulation (a*b -> b*a, powi(2) -> x*x, another lerp form) fails it too.  Such a
                 # failure is a verdict only together with a concrete failing input from the bounded native family.
@@ -374,7 +382,7 @@ def main():
                         known.append((kf, "S", dict(obligation="native lattice family: " + h.get("what", "")[:300])))
                 else:
                     fresh.append(h)
-            s_bounded.append(dict(harness="native family %s (%s) seed %d" % (pid, "replay/py/c20_scenarios.py on the real oxmpl_py module" if pid == "C20" else "replay/py/c19_scenarios.py + oxmpl-replay pyref" if pid == "C19" else "replay/src/spaces.rs", sd), bound=P["bounded_scenarios"], status="pass" if not fresh else "fail", reports=len(hits)))
+            s_bounded.append(dict(harness="native family %s (%s) seed %d" % (pid, "replay/py/c20_scenarios.py on the real oxmpl_py module" if pid == "C20" else "replay/py/c19_scenarios.py + oxmpl-replay pyref" if pid == "C19" else "replay/src/stats.rs" if pid == "C14" else "replay/src/spaces.rs", sd), bound=P["bounded_scenarios"], status="pass" if not fresh else "fail", reports=len(hits)))
             if fresh:
                 s_violations.append((sd, fresh))
 
